@@ -31,7 +31,7 @@ PLAN["C04"] = {
         {"name": "FuzzTemplate", "fuzz": True, "thorough": (FUZZ_SECONDS, 16)},
     ],
     "budget": {"quick": 600, "thorough": 5400},
-    "rule": "cases: (a) direct calls of every registered function/router test (enumerated from the registry at run time) "
+    "rule": "cases: (a) direct calls of every registered function/router test (enumerated from the registry at run time; a third of the calls of ~70 functions take related argument tuples from role pools: text/pattern/group, instant/layout/zone, text/index/delimiter, object/path, array/lambda) "
             "at arity 0..max+1 with argument tuples from the boundary-biased value generator; (b) expression source drawn "
             "from the full Excellent3 grammar evaluated in random contexts via Template/TemplateValue/Expression; (c) "
             "template strings mixing hostile text and @-forms. Non-trivial = the call reached the function body (arity "
@@ -53,7 +53,7 @@ MANIFEST_TEXT["C04"] = {
 PLAN["C12"] = {
     "pkg": "c12",
     "tests": [
-        {"name": "TestLiteralText", "quick": (400000, 8), "thorough": (16000000, 16)},
+        {"name": "TestLiteralText", "quick": (800000, 16), "thorough": (16000000, 16)},
         {"name": "FuzzLiteral", "fuzz": True, "thorough": (FUZZ_SECONDS, 16)},
     ],
     "budget": {"quick": 600, "thorough": 5400},
@@ -161,7 +161,7 @@ MANIFEST_TEXT["C13"] = {
 PLAN["C15"] = {
     "pkg": "c15",
     "tests": [
-        {"name": "TestQueryEvaluation", "quick": (320000, 8), "thorough": (16000000, 16)},
+        {"name": "TestQueryEvaluation", "quick": (640000, 16), "thorough": (16000000, 16)},
     ],
     "budget": {"quick": 600, "thorough": 5400},
     "rule": "contacts built by construction (name, language, created_on/last_seen_on and datetime fields on and next to a drawn day "
@@ -184,8 +184,8 @@ MANIFEST_TEXT["C15"] = {
 PLAN["C17"] = {
     "pkg": "c17",
     "tests": [
-        {"name": "TestLegacyMigration", "quick": (480000, 8), "thorough": (24000000, 16)},
-        {"name": "TestContextReferences", "quick": (40000, 4), "thorough": (2000000, 8)},
+        {"name": "TestLegacyMigration", "quick": (960000, 8), "thorough": (24000000, 16)},
+        {"name": "TestContextReferences", "quick": (80000, 8), "thorough": (2000000, 8)},
     ],
     "budget": {"quick": 600, "thorough": 5400},
     "rule": "typed legacy (Excellent1) syntax trees: numbers, strings (doubled quotes, backslashes), booleans, context references, all "
@@ -289,7 +289,7 @@ PLAN["C02"] = {
         {"name": "TestPersistenceTransparent", "quick": (20000, 16), "thorough": (480000, 16)},
     ],
     "budget": {"quick": 600, "thorough": 5400},
-    "rule": SCENARIO_RULE + "Every step carries a drawn 'restart here' bit. Oracle: (a) after every sprint marshal(read(marshal(s))) == "
+    "rule": SCENARIO_RULE + "Two thirds of the worlds are wait-heavy (first flow starts on a waiting router, most routers wait); small resume limits are drawn. Every step carries a drawn 'restart here' bit (2 in 3). Oracle: (a) after every sprint marshal(read(marshal(s))) == "
             "marshal(s) byte for byte; (b) the same scenario is executed a second time keeping the session object alive throughout, with "
             "clock/UUID/random sources reset per sprint, and every sprint's events, segments and resulting session JSON must be identical "
             "to the execution that restarted at the drawn subset of waits. Templates never reference @webhook/@legacy_extra (the two "
@@ -356,12 +356,12 @@ MANIFEST_TEXT["C06"] = {
 PLAN["C07"] = {
     "pkg": "c07",
     "tests": [
-        {"name": "TestRouting", "quick": (80000, 8), "thorough": (2000000, 16)},
-        {"name": "TestRoutingInHistories", "quick": (12000, 8), "thorough": (300000, 16)},
+        {"name": "TestRouting", "quick": (120000, 8), "thorough": (2000000, 16)},
+        {"name": "TestRoutingInHistories", "quick": (24000, 8), "thorough": (300000, 16)},
     ],
     "budget": {"quick": 600, "thorough": 5400},
     "rule": "one-router flows (nodes after the router only send messages, so the router's context is still the context after the sprint): "
-            "switch routers with 0-6 cases over 31 (test, arguments) shapes of the registered tests (literal arguments, expressions over "
+            "switch routers with 0-6 cases over 46 (test, arguments) shapes covering every registered test (self-test against cases.XTESTS), half of the inputs aimed at a drawn case, a via-child variant in which the node first enters a sub-flow that waits (message or timeout) and the router routes after the child ended, (literal arguments, expressions over "
             "stable context, arguments that error, translated / wrong-length / empty translations), shared categories and shared exits, "
             "with/without default, result name, msg wait and timeout; random routers with 1-6 categories under a pinned random source; "
             "router-less nodes with 1-3 exits; operands over input/fields/globals/trigger params/errors; 25 inputs aimed at the cases. "
@@ -387,7 +387,7 @@ MANIFEST_TEXT["C07"] = {
 PLAN["C18"] = {
     "pkg": "c18",
     "tests": [
-        {"name": "TestLocalization", "quick": (64000, 8), "thorough": (4000000, 16)},
+        {"name": "TestLocalization", "quick": (128000, 8), "thorough": (4000000, 16)},
         {"name": "TestLocalizationExhaustive", "plain": True, "quick": (0, 8), "thorough": (0, 16)},
     ],
     "budget": {"quick": 600, "thorough": 5400},
@@ -439,7 +439,7 @@ MANIFEST_TEXT["C20"] = {
 PLAN["C19"] = {
     "pkg": "c19",
     "tests": [
-        {"name": "TestRedactedURNsInvisible", "quick": (4000, 16), "thorough": (240000, 16)},
+        {"name": "TestRedactedURNsInvisible", "quick": (8000, 16), "thorough": (240000, 16)},
         {"name": "TestURNQueriesRejected", "quick": (20000, 2), "thorough": (400000, 4)},
     ],
     "budget": {"quick": 600, "thorough": 5400},
@@ -465,9 +465,9 @@ MANIFEST_TEXT["C19"] = {
 PLAN["C16"] = {
     "pkg": "c16",
     "tests": [
-        {"name": "TestVersionMigration", "quick": (24000, 8), "thorough": (1600000, 16)},
-        {"name": "TestLegacyMigration", "quick": (24000, 4), "thorough": (1600000, 16)},
-        {"name": "TestHostileDefinitions", "quick": (40000, 4), "thorough": (3200000, 16)},
+        {"name": "TestVersionMigration", "quick": (48000, 8), "thorough": (1600000, 16)},
+        {"name": "TestLegacyMigration", "quick": (48000, 8), "thorough": (1600000, 16)},
+        {"name": "TestHostileDefinitions", "quick": (80000, 8), "thorough": (3200000, 16)},
         {"name": "FuzzReadFlow", "fuzz": True, "thorough": (FUZZ_SECONDS, 16)},
     ],
     "budget": {"quick": 600, "thorough": 5400},
@@ -615,7 +615,7 @@ PLAN["C09"] = {
     ],
     "budget": {"quick": 900, "thorough": 7200},
     "rule": "one shared SessionAssets per round (cold flow cache; flows stamped with older spec versions so that they are migrated lazily on "
-            "first use; query-based groups; translations) and 2-6 goroutines released together behind a barrier, each driving its own "
+            "first use; query-based groups; translations; half of the worlds straight chains whose every node all goroutines execute; environments with input collations) and 2-6 goroutines released together behind a barrier, each driving its own "
             "script: read trigger (some with a custom number format), start, then per resume marshal the session, read it back, Inspect() "
             "and ExtractTemplates of every run's flow, render and JSON-marshal CurrentContext(), resume; two rounds per case. Built with "
             "-race. Oracle: (a) no data race report from the Go race detector (reports are keyed by the innermost goflow frames of both "
